@@ -356,6 +356,9 @@ def route_replay(rep, pid, name, cex):
     elif cex['case'].get('kind') in ('token', 'tokenids'):
         import tokencore
         tokencore.replay_token(rep, pid, name, cex)
+    elif cex['case'].get('kind') == 'regex':
+        import regexcore
+        regexcore.replay_regex(rep, pid, name, cex)
     elif cex['case'].get('kind') == 'set':
         import c19
         case = cex['case']
